@@ -7,6 +7,7 @@
    the chains themselves (user code, any operators) and the world are universally quantified. *)
 From Coq Require Import List ZArith Lia.
 From Join Require Import Tok Names Ast Comp Std Denote Spec Leaves SpecProps.
+From Join Require SpecSpawn.
 From Join Require SpecPositions.
 From Join Require ThreadsProps.
 From Join Require RefineCorollaries.
@@ -281,3 +282,30 @@ Theorem generated_try_async_result_positions :
     Leaves.leaves c (fun v : Comp.val => SpecPositions.TryResultOK sp T false (Comp.DV v)).
 Proof. exact (@SpecPositions.den_gen_result_positions_try_async). Qed.
 Print Assumptions generated_try_async_result_positions.
+
+(* OBLIGATION spawn_result_positions *)
+(* thread kinds, whole program, every schedule: the value the caller of join_spawn! gets lists branch b's last step value at position b *)
+Theorem spawn_result_positions :
+  forall (h : Comp.ev -> option Comp.val) (W : Type)
+    (handle : option String.string -> Comp.ev -> W -> option Comp.val * W)
+    (msem : String.string ->
+            option (list Tok.operand) -> Comp.dval -> list Comp.dval -> Comp.comp Comp.dval)
+    (dotsem : Tok.operand -> list (String.string * option Comp.val) -> Comp.dval -> Comp.comp Comp.dval)
+    (callsem : Comp.val -> list Comp.dval -> Comp.comp Comp.dval)
+    (awaitsem : Comp.val -> Comp.comp Comp.val) (p : Spec.sprog) (nm : option String.string) 
+    (w : W) (sched : list nat) (T : nat -> nat -> Comp.dval -> Prop),
+  SpecSpawn.stateless h W handle ->
+  SpecCode.user_codeC (@SpecSpawn.ucode) msem dotsem callsem awaitsem ->
+  Ast.is_async (Spec.sp_cfg p) = false ->
+  Ast.is_try (Spec.sp_cfg p) = false ->
+  Spec.sp_handler p = None ->
+  (forall (sn : list (String.string * option Comp.val)) (cp : Spec.caps) (k : nat) 
+     (st : Spec.state) (b : nat), Leaves.leaves (Spec.chain msem dotsem callsem p sn cp k st b) (T b k)) ->
+  (forall b : nat, b < Datatypes.length (Spec.sp_trees p) -> 1 <= Spec.depth p b) ->
+  let spawn_prog :=
+    Comp.bind (Spec.spec msem dotsem callsem awaitsem (SpecCode.with_spawn true p))
+      (fun d : Comp.dval => Comp.to_val d) in
+  let s := Threads.run_thr handle sched (Threads.init nm spawn_prog w) in
+  forall v : Comp.val, Threads.result_of 0 s = Some (Some v) -> SpecProps.ResultOK p T (Comp.DV v).
+Proof. exact (@SpecSpawn.spawn_result_positions). Qed.
+Print Assumptions spawn_result_positions.
